@@ -301,9 +301,15 @@ def ptr2(cfg):
         res.count('registry primitives')
         ins = [e for b, i, e in f.elements() if e.get('k') == 'call' and e.get('name') in ('insert', 'emplace') and not is_assert_elem(e)]
         ok = len(ins) == 1 and 'unordered_multiset' in (ins[0].get('cls') or '')
+        if ok:
+            # ... on EVERY path: the insert dominates the exit (an early return under some thread state leaves a live
+            # wrapper untracked, and the rejection assertions accept what they must reject)
+            from ..engine import dominators as _dom
+            ib = [b for b, i, e in f.elements() if e is ins[0]][0]
+            ok = ib in _dom(f).get(f.exit, set())
         res.ob(ok)
         if not ok:
-            res.find(f, f.loc, 'register_active_ptr must insert the pointer into the multiset exactly once', key='registry-insert', config=cfg.name)
+            res.find(f, f.loc, 'register_active_ptr must insert the pointer into the multiset exactly once, on every path: a path that returns without inserting (for instance while the thread is paused) leaves a live non-null wrapper untracked, and the next resume / quiescent state / pause is accepted although it must be rejected', key='registry-insert', config=cfg.name)
     else:
         res.incompl('qsbr_per_thread::register_active_ptr not found')
     f = per.get('unregister_active_ptr')
@@ -316,9 +322,14 @@ def ptr2(cfg):
             # erase(iterator) removes one element; erase(key) removes every equal element of a multiset
             arg_t = sig[sig.find('('):]
             ok = 'iterator' in arg_t or '_Node_' in arg_t
+        if ok:
+            from ..engine import dominators as _dom
+            eb = [b for b, i, e in f.elements() if e is er[0]][0]
+            if eb not in _dom(f).get(f.exit, set()):
+                ok = False
         res.ob(ok, {'rule': 'PTR-2', 'function': 'qsbr_per_thread::unregister_active_ptr', 'erase_overload': (f.callee_sig(er[0]) or '')[-90:] if er else None, 'verdict': 'discharged' if ok else 'VIOLATION'})
         if not ok:
-            res.find(f, f.loc, 'unregister_active_ptr must erase exactly ONE registration (erase by iterator): erasing by key drops every wrapper registered for the same address, so a live wrapper goes untracked', key='registry-erase-one', config=cfg.name)
+            res.find(f, f.loc, 'unregister_active_ptr must erase exactly ONE registration (erase by iterator), on every path: erasing by key drops every wrapper registered for the same address, so a live wrapper goes untracked; a path that returns without erasing leaves a dead wrapper registered, and a legal quiescent state is rejected', key='registry-erase-one', config=cfg.name)
     else:
         res.incompl('qsbr_per_thread::unregister_active_ptr not found')
     res.floor('member functions that set the wrapped address', 9)
